@@ -34,6 +34,7 @@ def standard(pid, tier, seed, collect, trusted, search_script, search_spec, thor
         payload = {"property": pid, "failed_obligations": names[:40], "notes": [o.note for o in bad[:10]],
                    "struct_failures": [{"function": s.ident, "reason": s.msg} for s in res.struct],
                    "solver_output": [{"obligation": o.name, "attempts": o.all_results} for o in bad[:10]],
+                   "solver_counterexample": driver.solver_counterexample(bad),
                    "harness": search_script}
         ok = bool(found and found.get("found"))
         if ok:
